@@ -135,11 +135,15 @@ inductive HOp where
   | cpy (i j : Nat)                 -- x[i] = x[j] / x.f_i = x.f_j  (an existing sub-view is assigned)
   | sets (i : Nat) (vs : List Val)  -- x[i:i+k] = vs
   | setf (i : Nat) (ft : Ty) (v : Val)  -- x[i] = <a view of type ft holding v>
+  | refused                            -- an argument outside the model's domain that the API must refuse
+                                       -- (a NEGATIVE union selector: `change(selector=-1, …)`)
 
 def toHOp : Sexp → Option HOp
   | .list [.atom "cpy", i, j] => do pure (.cpy (← atomNat i) (← atomNat j))
   | .list [.atom "sets", i, .list (.atom "s" :: vs)] => do pure (.sets (← atomNat i) (← toVals vs))
   | .list [.atom "setf", i, ft, v] => do pure (.setf (← atomNat i) (← toTy ft) (← toVal v))
+  | .list [.atom "chg", .atom sel, v] =>
+    if sel.startsWith "-" then some .refused else (toOp (.list [.atom "chg", .atom sel, v])).map .op
   | s => (toOp s).map .op
 
 /-- the elements / fields of a sequence or container value -/
@@ -184,6 +188,7 @@ def expandHOp (t : Ty) (v : Val) : HOp → Option (List Impl.Op × Nat)
   | .sets i vs =>
     let ops := vs.zipIdx.map fun (x, k) => Impl.Op.set (i + k) x
     some (ops, (ops.map (costBound t)).sum)
+  | .refused => none
   | .setf i ft x =>
     -- a typed argument: an integer view of another width, a vector / byte vector view of another length
     -- is rejected whatever it holds (its repr differs from the element type's); of the same type it is
@@ -382,6 +387,24 @@ def runPath (t : Ty) (v : Option Val) (keys : List Key) : String :=
       | _, _ => none
     join (base ++ [kv "i.node" (rootO at_)])
 
+/-- a negative key is not a key of any type: the path is refused when it is built -/
+def isNegAtom : Sexp → Bool
+  | .atom a => a.startsWith "-"
+  | _ => false
+
+def runPathInvalid (n : Nat) : String :=
+  join [kv "i.g" "err", kv "s.g" "err", kv "i.pre" (String.intercalate "," (List.replicate n "err"))]
+
+/-- type-level size facts only (also for types whose values are astronomically large) -/
+def runTSize (t : Ty) : String :=
+  join [
+    kv "wf" (b01 t.wf),
+    kv "fixed" (b01 (Spec.isFixed t)),
+    kv "flen" (toString (Spec.fixedLen t)),
+    kv "min" (toString (Spec.minLen t)),
+    kv "max" (toString (Spec.maxLen t)),
+    kv "depth" (toString (Impl.treeDepth t))]
+
 def toSOp : Sexp → Option (List Impl.SOp ⊕ (Nat ⊕ (Nat × Nat × Ty × Val)))
   | .list [.atom "child", r, k] => do pure (.inl [.child (← atomNat r) (← atomNat k)])
   | .list [.atom "childs", r, k] => do pure (.inl [.child (← atomNat r) (← atomNat k)])
@@ -469,6 +492,7 @@ def viewLen (t : Ty) (n : Node) : Option Nat := Impl.viewLen H t n
 inductive POp where
   | read | elem (i : Nat) | len | bytes | root | mut (op : HOp) | slice (a b : Nat) | nav (g : Nat)
   | sub (i : Nat) (op : HOp)   -- a mutation through the child view at key i (propagates into this view)
+  | vbl                        -- value_byte_length()
 
 def toPOp : Sexp → Option POp
   | .list [.atom "read"] => some .read
@@ -476,6 +500,7 @@ def toPOp : Sexp → Option POp
   | .list [.atom "len"] => some .len
   | .list [.atom "iter"] => some .read
   | .list [.atom "nav", g] => (atomNat g).map .nav
+  | .list [.atom "vbl"] => some .vbl
   | .list [.atom "sub", i, op] => do pure (.sub (← atomNat i) (← toHOp op))
   | .list [.atom "slice", a, b] => do pure (.slice (← atomNat a) (← atomNat b))
   | .list [.atom "bytes"] => some .bytes
@@ -484,62 +509,92 @@ def toPOp : Sexp → Option POp
 
 def okStr (o : Option String) : String := match o with | some s => "ok:" ++ s | none => "err"
 
-/-- run read / mutation ops on a backing tree; a failed op leaves the tree unchanged -/
+/-- one read / mutation op on a backing tree; a failed op leaves the tree unchanged (except a slice
+    assignment, which keeps the writes made before the failing one) -/
+def stepPOp (t : Ty) (n : Node) (op : POp) : Node × String :=
+  match op with
+  | .read => (n, okStr ((Impl.readVal H t n).map valStr))
+  | .elem i => (n, okStr ((readElem t n i).map valStr))
+  | .len => (n, okStr ((viewLen t n).map toString))
+  | .nav g => (n, okStr ((getter n g).map fun m => hexOf (m.root H)))
+  | .vbl => (n, okStr ((Impl.valueByteLength H t n).map toString))
+  | .sub i ho =>
+    let r : Option Node := do
+      let (ct, cn) ← Impl.childOf H t n i
+      if ct.isBasic then none
+      let (ops, _) ← expandHOp ct .none ho
+      let cn' ← ops.foldlM (fun acc o => Impl.apply H ct acc o) cn
+      Impl.setChildNode H t n i cn'
+    match r with
+    | some m => (m, "ok:" ++ hexOf (m.root H))
+    | none => (n, "err")
+  | .slice a b =>
+    -- an in-range slice (both bounds reduced modulo the current length) = the element reads in order
+    (n, okStr ((viewLen t n).bind fun ln =>
+      let a' := a % (ln + 1)
+      let b' := a' + b % (ln - a' + 1)
+      (Impl.sliceRead H t n a' b').map fun xs =>
+        toString a' ++ ":" ++ toString b' ++ ":" ++ String.intercalate "," (xs.map valStr)))
+  | .bytes => (n, okStr ((Impl.serTree H t n).map fun p => hexOf p.1))
+  | .root => (n, "ok:" ++ hexOf (n.root H))
+  | .mut ho =>
+    -- compositions (cpy / sets) are expanded with the content read from the current tree
+    let res : Option Node :=
+      match ho with
+      | .cpy i j =>
+        -- `x[i] = x[j]`: the sub-view's backing node is written at position i (no content is read) —
+        -- except for byte arrays, which are plain values: the view is built by reading the whole content
+        -- and its backing is rebuilt from it
+        (Impl.childOf H t n j).bind fun (c : Ty × Node) =>
+          match c.1 with
+          | .bytevector _ | .bytelist _ =>
+            (Impl.readVal H c.1 c.2).bind fun bv => (Impl.construct H c.1 bv).bind fun nd => Impl.setChildNode H t n i nd
+          | _ => Impl.setChildNode H t n i c.2
+      | _ =>
+        none
+    -- slice assignment writes element by element: a failure in the middle keeps the earlier writes
+    let (fin, okAll) : Node × Bool :=
+      match ho with
+      | .cpy _ _ => (res.getD n, res.isSome)
+      | _ =>
+        match expandHOp t .none ho with
+        | none => (n, false)
+        | some (ops, _) =>
+          ops.foldl (fun (acc : Node × Bool) o =>
+            if !acc.2 then acc else
+            match Impl.apply H t acc.1 o with
+            | some m => (m, true)
+            | none => (acc.1, false)) (n, true)
+    if okAll then (fin, "ok:" ++ hexOf (fin.root H)) else (fin, "err")
+
 def runPOps (t : Ty) (n0 : Node) (ops : List POp) (key : String) : List String :=
   let rec go (k : Nat) (n : Node) (ops : List POp) (acc : List String) : List String :=
     match ops with
     | [] => acc.reverse
     | op :: rest =>
-      let (n', res) : Node × String :=
-        match op with
-        | .read => (n, okStr ((Impl.readVal H t n).map valStr))
-        | .elem i => (n, okStr ((readElem t n i).map valStr))
-        | .len => (n, okStr ((viewLen t n).map toString))
-        | .nav g => (n, okStr ((getter n g).map fun m => hexOf (m.root H)))
-        | .sub i ho =>
-          let r : Option Node := do
-            let (ct, cn) ← Impl.childOf H t n i
-            if ct.isBasic then none
-            let (ops, _) ← expandHOp ct .none ho
-            let cn' ← ops.foldlM (fun acc o => Impl.apply H ct acc o) cn
-            Impl.setChildNode H t n i cn'
-          match r with
-          | some m => (m, "ok:" ++ hexOf (m.root H))
-          | none => (n, "err")
-        | .slice a b =>
-          -- an in-range slice (both bounds reduced modulo the current length) = the element reads in order
-          (n, okStr ((viewLen t n).bind fun ln =>
-            let a' := a % (ln + 1)
-            let b' := a' + b % (ln - a' + 1)
-            (Impl.sliceRead H t n a' b').map fun xs =>
-              toString a' ++ ":" ++ toString b' ++ ":" ++ String.intercalate "," (xs.map valStr)))
-        | .bytes => (n, okStr ((Impl.serTree H t n).map fun p => hexOf p.1))
-        | .root => (n, "ok:" ++ hexOf (n.root H))
-        | .mut ho =>
-          -- compositions (cpy / sets) are expanded with the content read from the current tree
-          let res : Option Node :=
-            match ho with
-            | .cpy i j =>
-              -- `x[i] = x[j]`: the sub-view's backing node is written at position i (no content is read)
-              (Impl.childOf H t n j).bind fun (c : Ty × Node) => Impl.setChildNode H t n i c.2
-            | _ =>
-              none
-          -- slice assignment writes element by element: a failure in the middle keeps the earlier writes
-          let (fin, okAll) : Node × Bool :=
-            match ho with
-            | .cpy _ _ => (res.getD n, res.isSome)
-            | _ =>
-              match expandHOp t .none ho with
-              | none => (n, false)
-              | some (ops, _) =>
-                ops.foldl (fun (acc : Node × Bool) o =>
-                  if !acc.2 then acc else
-                  match Impl.apply H t acc.1 o with
-                  | some m => (m, true)
-                  | none => (acc.1, false)) (n, true)
-          if okAll then (fin, "ok:" ++ hexOf (fin.root H)) else (fin, "err")
+      let (n', res) := stepPOp t n op
       go (k + 1) n' rest (kv (toString k ++ "." ++ key) res :: acc)
   go 0 n0 ops []
+
+/-- is this op a mutation other than a slice assignment -/
+def POp.isAtomicMut : POp → Bool
+  | .mut (.sets _ _) => false
+  | .mut _ => true
+  | .sub _ _ => true
+  | _ => false
+
+/-- the partial and the complete tree in LOCKSTEP: a mutation (other than a slice assignment) that fails on the
+    partial tree is not applied to the complete tree either (answer `skip`), so that the two keep denoting the
+    same value and every later result stays comparable -/
+def runPOpsLock (t : Ty) (p0 n0 : Node) (ops : List POp) : List String :=
+  let rec go (k : Nat) (p n : Node) (ops : List POp) (acc : List String) : List String :=
+    match ops with
+    | [] => acc.reverse
+    | op :: rest =>
+      let (p', rp) := stepPOp t p op
+      let (n', rn) := if op.isAtomicMut && rp == "err" then (n, "skip") else stepPOp t n op
+      go (k + 1) p' n' rest (kv (toString k ++ ".ic") rn :: kv (toString k ++ ".i") rp :: acc)
+  go 0 p0 n0 ops []
 
 def runPartial (t : Ty) (v : Val) (positions : List Nat) (ops : List POp) : String :=
   match Impl.construct H t v with
@@ -550,7 +605,7 @@ def runPartial (t : Ty) (v : Val) (positions : List Nat) (ops : List POp) : Stri
       | some m => (m, acc.2 ++ "1")
       | none => (acc.1, acc.2 ++ "0")) (n, "")
     join ([kv "i.summ" done, kv "i.root" (hexOf (pn.root H)), kv "i.croot" (hexOf (n.root H))]
-      ++ runPOps t pn ops "i" ++ runPOps t n ops "ic")
+      ++ runPOpsLock t pn n ops)
 
 def runVirt (t : Ty) (v : Val) (ops : List POp) : String :=
   match Impl.construct H t v with
@@ -577,8 +632,13 @@ def runCase (xs : List Sexp) : Option String :=
     pure (runDec (← toTy t) (← unhexAux (pre.toList.drop 1)) (← unhexAux (body.toList.drop 1))
       (← unhexAux (post.toList.drop 1)))
   | .atom "tree" :: tr :: cmds => do runTree (← toTree H tr) cmds
-  | .atom "path" :: t :: keys => do pure (runPath (← toTy t) none (← keys.mapM toKey))
-  | .atom "pathv" :: t :: v :: keys => do pure (runPath (← toTy t) (some (← toVal v)) (← keys.mapM toKey))
+  | .atom "path" :: t :: keys => do
+    if keys.any isNegAtom then pure (runPathInvalid keys.length) else
+    pure (runPath (← toTy t) none (← keys.mapM toKey))
+  | .atom "pathv" :: t :: v :: keys => do
+    if keys.any isNegAtom then pure (runPathInvalid keys.length) else
+    pure (runPath (← toTy t) (some (← toVal v)) (← keys.mapM toKey))
+  | [.atom "tsize", t] => do pure (runTSize (← toTy t))
   | [.atom "uop", op, xw, xv, yw, yv] => do
     let op ← toBinOp op
     let x ← toOperand xw xv
